@@ -54,6 +54,7 @@ type JobConfig struct {
 	WitnessFor []string `json:"witness_for,omitempty"`
 	WallMs     int      `json:"wall_ms,omitempty"`
 	Tag        string   `json:"tag,omitempty"` // echoed back (the runner's bookkeeping)
+	UnwindAssumeN int     `json:"unwind_assume_n,omitempty"` // back edges taken before such a path ends (default 4)
 	UnwindAssume []string `json:"unwind_assume,omitempty"` // loops of these functions: reaching the bound ends the path (assumption), e.g. probabilistic rejection sampling
 	BytesLens  []int    `json:"bytes_lens,omitempty"` // big.Int.Bytes(): explore only these minimal lengths of a symbolic value
 	BytesFull  bool     `json:"bytes_full,omitempty"` // assume DH results have no leading zero octet (C09 decides those cases)
@@ -819,7 +820,11 @@ func (ex *Exec) jump(st *State, fr *Frame, to *ssa.BasicBlock) {
 		}
 		fr.visits[to.Index]++
 		for _, ua := range ex.cfg.UnwindAssume {
-			if ua == fr.fn.String() && fr.visits[to.Index] >= 4 {
+			uan := ex.cfg.UnwindAssumeN
+			if uan == 0 {
+				uan = 4
+			}
+			if ua == fr.fn.String() && fr.visits[to.Index] >= uan {
 				ex.res.UnwindAssumed++
 				ex.endPath("unwind-assumed")
 			}
@@ -1047,6 +1052,27 @@ func (ex *Exec) step(st *State) {
 	case *ssa.MakeMap:
 		o := st.newObject(objMap, x.Type())
 		fr.env[x] = &MapVal{obj: o.id}
+	case *ssa.MakeChan:
+		// a channel is a counter of queued elements on an object (single-threaded executor: a send on a
+		// full channel or a receive from an empty one can never proceed and is reported as a deadlock);
+		// only the number of elements is tracked, so the element type must carry no information
+		o := st.newObject(objCell, nil)
+		o.val = &StructVal{}
+		n := ex.intOfTerm(st, ex.get(st, fr, x.Size).(*Term), "channel capacity")
+		o.ext = &chanExt{cap: n}
+		site, _ := ex.repoSite(st)
+		o.site = "channel made at " + site
+		fr.env[x] = &Ptr{obj: o.id}
+	case *ssa.Send:
+		p := ex.get(st, fr, x.Chan).(*Ptr)
+		ce := ex.chanOf(st, p)
+		if ce.n >= ce.cap {
+			ex.recordViolation(st, "deadlock", nil, "send on a full channel that nothing on this path can drain")
+			ex.endPath("violation:deadlock")
+		}
+		w := st.wobj(p.obj)
+		w.ext = &chanExt{cap: ce.cap, n: ce.n + 1}
+		ex.checkWrite(st, w)
 	case *ssa.MapUpdate:
 		ex.mapUpdate(st, ex.get(st, fr, x.Map).(*MapVal), ex.get(st, fr, x.Key), ex.get(st, fr, x.Value))
 	case *ssa.Range:
@@ -1140,6 +1166,29 @@ func (ex *Exec) step(st *State) {
 // ---------------------------------------------------------------------------
 // operators
 
+type chanExt struct{ cap, n int }
+
+func (c *chanExt) cloneExt() Ext { return c }
+
+func (ex *Exec) chanOf(st *State, p *Ptr) *chanExt {
+	if p.obj == 0 {
+		ex.recordViolation(st, "deadlock", nil, "operation on a nil channel")
+		ex.endPath("violation:deadlock")
+	}
+	ce, ok := st.obj(p.obj).ext.(*chanExt)
+	if !ok {
+		panic(engineErr("channel operation on an unmodelled object"))
+	}
+	return ce
+}
+
+func (ex *Exec) intOfTerm(st *State, t *Term, what string) int {
+	if n, ok := concreteInt(t); ok {
+		return n
+	}
+	return ex.concretize(st, t, what, 4096)
+}
+
 func (ex *Exec) unop(st *State, x *ssa.UnOp, v Value) Value {
 	switch x.Op {
 	case token.MUL:
@@ -1150,6 +1199,24 @@ func (ex *Exec) unop(st *State, x *ssa.UnOp, v Value) Value {
 		return mkUn(OpNeg, v.(*Term))
 	case token.XOR:
 		return mkUn(OpBNot, v.(*Term))
+	case token.ARROW:
+		p := v.(*Ptr)
+		ce := ex.chanOf(st, p)
+		if ce.n == 0 {
+			ex.recordViolation(st, "deadlock", nil, "receive from an empty channel that nothing on this path can fill")
+			ex.endPath("violation:deadlock")
+		}
+		w := st.wobj(p.obj)
+		w.ext = &chanExt{cap: ce.cap, n: ce.n - 1}
+		ex.checkWrite(st, w)
+		el := x.X.Type().Underlying().(*types.Chan).Elem()
+		if st, ok := el.Underlying().(*types.Struct); !ok || st.NumFields() != 0 {
+			panic(engineErr("receive from a channel whose elements carry data (%s)", el))
+		}
+		if x.CommaOk {
+			return &TupleVal{vals: []Value{zeroValue(el), mkBool(true)}}
+		}
+		return zeroValue(el)
 	}
 	panic(engineErr("unsupported unary operator %s", x.Op))
 }
